@@ -23,7 +23,9 @@ def place_demo(d, name):
         # the C06 demos are #[cfg(test)] modules appended to a source file named in their demo.md
         target, filt = {'C06-1': ('src/storage/secondary/block.rs', 'c06_demo_1'), 'C06-2': ('src/storage/secondary/block.rs', 'c06_demo_2'),
                         'C06-3': ('src/storage/secondary/block/char_block_iterator.rs', 'c06_full_width'),
-                        'C06-4': ('src/storage/secondary/block/rle_block_iterator.rs', 'c06_rle')}[name]
+                        'C06-4': ('src/storage/secondary/block/rle_block_iterator.rs', 'c06_rle'),
+                        'C06-5': ('src/storage/secondary/column/concrete_column_iterator.rs', 'c06_demo_consecutive_skips'),
+                        'C06-6': ('src/storage/secondary/column/primitive_column_builder.rs', 'c06_demo_nullable_rle_roundtrip')}[name]
         p = os.path.join(WT, target)
         open(p, 'a').write('\n' + demo)
         return f'cargo test --offline -j 8 --lib {filt}', lambda: sh(f'git checkout -- {target}')
